@@ -18,6 +18,7 @@ from fractions import Fraction
 
 D = decimal.Decimal
 _CTX = decimal.Context(prec=60)
+decimal.getcontext().prec = 60  # unary minus / abs / + on Decimals use the thread context
 
 
 class Inconclusive(Exception):
